@@ -669,7 +669,7 @@ impl Check for C10
 	}
 	fn rule(&self) -> String
 	{
-		"(a) 2-8 constants of random integer types initialised with random UB-free expressions (arithmetic, bitwise, shifts, casts, size-of, references to other constants in any top-level order, depth <= 5), each mirrored by `var v: T = <same expression>` in main, both printed; (b) arrays of length 0..7 whose length is a named constant defined by an expression (before or after its user), passed by name, as []T and &[]T through two call levels, via a pointer to the sized array, as a row of a 2-D array, as a struct member and as a constant array, with |x| printed at every level; (c) random structs and exactly-filled words (nested words/structs, arrays, pointers, all primitive types) whose |:S|, |:[k]S|, |:T|, |:[k]T|, |:[m][k]T| are printed at run time and through `const SZ: usize = |:S|`. Oracle: constant == run-time twin == reference interpreter; |x| == declared length everywhere; sizes == C layout from the declared data layout. (d) word8..word128 with 1-8 primitive members whose raw sizes reach, stay below or pass the declared size, in any order (so that padding holes occur): members needing more than the declared size => E380, exactly filled => accepted, and for every accepted word |:W| == constant |:W| , |:[N]W| == N * |:W|, |:W| and |:struct { u8, W }| equal to member sizes plus alignment padding (underfilled words may be refused: docs say 'does not match'). Non-trivial: an expression of depth >= 3 containing a cast (a), always (b), a structure with >= 3 members (c), a word with >= 2 members (d); distinct by source.".into()
+		"(a) 2-8 constants of random integer types initialised with random UB-free expressions (arithmetic, bitwise, shifts, casts, size-of, references to other constants in any top-level order, depth <= 5), each mirrored by `var v: T = <same expression>` in main, both printed; (b) arrays of length 0..7 whose length is a named constant defined by an expression (before or after its user), passed by name, as []T and &[]T through two call levels, via a pointer to the sized array, as a row of a 2-D array, as a struct member and as a constant array, with |x| printed at every level; (c) random structs and exactly-filled words (nested words/structs, arrays, pointers, all primitive types) whose |:S|, |:[k]S|, |:T|, |:[k]T|, |:[m][k]T| are printed at run time and through `const SZ: usize = |:S|`. (e) constant arrays of 2-6 elements that are literals, constants or expressions over constants, next to a variable array of the same expressions over variables holding the same values, constant and run-time elements mixed in any order, every element and both lengths printed. Oracle: constant == run-time twin == reference interpreter (e: == the generator's values); |x| == declared length everywhere; sizes == C layout from the declared data layout. (d) word8..word128 with 1-8 primitive members whose raw sizes reach, stay below or pass the declared size, in any order (so that padding holes occur): members needing more than the declared size => E380, exactly filled => accepted, and for every accepted word |:W| == constant |:W| , |:[N]W| == N * |:W|, |:W| and |:struct { u8, W }| equal to member sizes plus alignment padding (underfilled words may be refused: docs say 'does not match'). Non-trivial: an expression of depth >= 3 containing a cast (a), always (b), a structure with >= 3 members (c), a word with >= 2 members (d); distinct by source.".into()
 	}
 	fn assumptions(&self) -> Vec<String>
 	{
